@@ -50,13 +50,16 @@ def crcByteSpec (c : UInt32) (b : UInt8) : UInt32 :=
 def crc32Spec (data : List UInt8) : UInt32 :=
   (data.foldl crcByteSpec 0xFFFFFFFF) ^^^ 0xFFFFFFFF
 
-/-- the oracle of a `go` line: every thread's concurrent digest equals its run-alone digest, no race report -/
-def goVerdict (alone conc : List String) (races : Nat) : String :=
-  if conc.length ≠ alone.length then s!"violates thread-count alone={alone.length} conc={conc.length}"
+/-- the oracle of a `go` line: every thread's concurrent digest, and the digest of the same workload repeated
+    afterwards on one thread of the same process, equal its run-alone digest; no race report -/
+def goVerdict (alone conc seq : List String) (races : Nat) : String :=
+  if conc.length ≠ alone.length ∨ seq.length ≠ alone.length then
+    s!"violates thread-count alone={alone.length} conc={conc.length} seq={seq.length}"
   else
-    let bad := (List.range alone.length).filter (fun i => alone[i]? ≠ conc[i]?)
-    match bad with
-    | i :: _ => s!"violates per-thread-results thread={i} alone={alone[i]?.getD ""} concurrent={conc[i]?.getD ""}"
-    | [] => if races ≠ 0 then s!"violates race-report n={races}" else "ok"
+    let idx := List.range alone.length
+    match idx.filter (fun i => alone[i]? ≠ conc[i]?), idx.filter (fun i => alone[i]? ≠ seq[i]?) with
+    | i :: _, _ => s!"violates per-thread-results thread={i} alone={alone[i]?.getD ""} concurrent={conc[i]?.getD ""}"
+    | [], i :: _ => s!"violates run-alone-result thread={i} alone={alone[i]?.getD ""} sequential={seq[i]?.getD ""}"
+    | [], [] => if races ≠ 0 then s!"violates race-report n={races}" else "ok"
 
 end Tins.Threads
